@@ -36,7 +36,7 @@ func init() {
 	Register(&Prop{
 		ID:         "C06",
 		Gomaxprocs: 2,
-		Rule:       "byte strings up to 64 KiB: (1) journals from G and hand-written corner snippets mutated by 1-6 operators (bit flips, deletions, duplications, truncation, splices of a dictionary of syntax fragments, invalid UTF-8 sequences, control characters, BOM, Unicode blanks and separators, extreme numbers and exponents, malformed dates), (2) parametric hostile shapes (one long line, 'a|a|a|...' headers, deeply nested account names, huge digit strings, grouped numbers, thousands of tags, brackets, quotes, blank lines, tiny transactions, postings, directives with sub-directives, include lines, ...) at sizes up to 64 KiB. Each input: the lexer is run alone (progress oracle: token spans inside the input, left to right, no overlap, gaps only blanks, EOF token at len(input), token count <= 2n+8), then the document is opened in an in-process server and diagnostics plus every feature request at hostile positions (origin, inside, past the end of line and file, huge, inside surrogate pairs) must return; a panic, a fatal error, more than 3 GiB resident or 10 s CPU for one request (background analysis included) ends the child and is attributed to the journalled input. CPU time (getrusage, not wall clock) of every request must stay below 150 ms + 40 us per input byte. (3) scaling oracle: each shape family at 2, 16 and 64 KiB, per-byte CPU cost of every request may grow at most 6-fold from 2 KiB to 64 KiB (quadratic = 32-fold); judged only when the 64 KiB request costs >= 30 ms. (4) wire sessions against the built binary with the input both as didOpen text and as an included file on disk (raw bytes): every request must be answered, the process must stay alive, child CPU per request bounded as above. Non-trivial = inputs that differ from every seed; distinct by input hash.",
+		Rule:       "byte strings up to 64 KiB: (1) journals from G and hand-written corner snippets mutated by 1-6 operators (bit flips, deletions, duplications, truncation, splices of a dictionary of syntax fragments, invalid UTF-8 sequences, control characters, BOM, Unicode blanks and separators, extreme numbers and exponents, malformed dates), (2) parametric hostile shapes (one long line, 'a|a|a|...' headers, deeply nested account names, huge digit strings, grouped numbers, thousands of tags, brackets, quotes, blank lines, tiny transactions, postings, directives with sub-directives, include lines, ...) at sizes up to 64 KiB. Each input: the lexer is run alone (progress oracle: token spans inside the input, left to right, no overlap, gaps only blanks, EOF token at len(input), token count <= 2n+8), then the document is opened in an in-process server and diagnostics plus every feature request at hostile positions (origin, inside, past the end of line and file, huge, inside surrogate pairs; every position for a third of the documents below 300 bytes) must return; a panic, a fatal error, more than 3 GiB resident or 10 s CPU for one request (background analysis included) ends the child and is attributed to the journalled input. CPU time (getrusage, not wall clock) of every request must stay below 100 ms + 10 us per input byte (0.75 s at 64 KiB; a linear pass costs 1-30 ms). (3) scaling oracle: each shape family at 2, 16 and 64 KiB, per-byte CPU cost of every request may grow at most 6-fold from 2 KiB to 64 KiB (quadratic = 32-fold); judged only when the 64 KiB request costs >= 30 ms. (4) wire sessions against the built binary with the input both as didOpen text and as an included file on disk (raw bytes): every request must be answered, the process must stay alive, child CPU per request bounded as above. Non-trivial = inputs that differ from every seed; distinct by input hash.",
 		Notes:      []string{"no coverage guidance: the mutation operators and the dictionary are fixed, inputs are a function of (seed, index)", "a request that neither returns nor burns CPU is reported by the generous wall-clock watchdog as inconclusive"},
 		Cases: func(tier string) int64 {
 			a, b, c, d := c06Counts(tier)
@@ -162,6 +162,11 @@ var c06Families = []c06Family{
 	{"include-lines", func(n int) string { return rep("include nowhere.journal\n", n) }},
 	{"price-directives", func(n int) string { return rep("P 2024-01-01 EUR 1.10 USD\n", n) }},
 	{"dates-only", func(n int) string { return rep("2024-01-01\n", n) }},
+	{"price-directives-one-line", func(n int) string { return rep("P 1994-06-25 XA05-16 GBP 21", n) + "\n" }},
+	{"postings-one-line", func(n int) string { return "2024-01-01 x\n    a:b  1 USD" + rep("  a:b  1 USD", n) + "\n" }},
+	{"dates-one-line", func(n int) string { return rep("2024-01-01 ", n) + "\n" }},
+	{"numbers-one-line", func(n int) string { return "2024-01-01 x\n    a  " + rep("1 ", n) + "\n" }},
+	{"words-one-line-directive", func(n int) string { return "account " + rep("ab cd ", n) + "\n" }},
 	{"costs", func(n int) string { return "2024-01-01 x\n" + rep("    a  1 A @ 2 B\n", n) + "    c\n" }},
 	{"assertions", func(n int) string { return "2024-01-01 x\n" + rep("    a  1 A = 5 A\n", n) }},
 	{"at-signs", func(n int) string { return "2024-01-01 x\n    a  1 A " + rep("@ ", n) + "\n" }},
@@ -356,7 +361,7 @@ func c06CPUWatchdog(c *Ctx) {
 }
 
 func c06Budget(n int) time.Duration {
-	return 150*time.Millisecond + time.Duration(n)*40*time.Microsecond
+	return 100*time.Millisecond + time.Duration(n)*10*time.Microsecond
 }
 
 // c06Timed runs fn as request name on its own goroutine and returns its CPU cost. A request that is
@@ -506,11 +511,16 @@ func c06Open(s *Session, uri protocol.DocumentURI, text string) (time.Duration, 
 // request, so background work that never ends runs into the CPU cap and is attributed to the input.
 func c06Settle(name string) time.Duration {
 	return c06Timed(name, func() {
+		// back off: every look at the goroutines costs CPU that is accounted to the request
+		wait := 300 * time.Microsecond
 		for {
 			if g := ServerGoroutines(); g.Active == 0 {
 				return
 			}
-			time.Sleep(300 * time.Microsecond)
+			time.Sleep(wait)
+			if wait < 2*time.Millisecond {
+				wait += wait / 2
+			}
 		}
 	})
 }
@@ -547,8 +557,20 @@ func c06Battery(c *Ctx, r *RNG, dir, text, class string) bool {
 	if slow("didOpen+diagnostics", d) {
 		return false
 	}
+	positions := c06Positions(r, text)
+	if n < 300 && r.Chance(1, 3) {
+		// small documents: every position of every line, one unit past each end included
+		starts, ends := refLines(text)
+		for l := range starts {
+			w := u16len(text[starts[l]:ends[l]])
+			for ch := 0; ch <= w+1; ch++ {
+				positions = append(positions, protocol.Position{Line: uint32(l), Character: uint32(ch)})
+			}
+		}
+		c.Count("documents_swept_at_every_position", 1)
+	}
 	first := true
-	for _, p := range c06Positions(r, text) {
+	for _, p := range positions {
 		for _, rq := range c06Requests(s, uri, p, first) {
 			d := c06Timed(rq.Name, rq.Do)
 			c.Count("requests", 1)
